@@ -135,6 +135,9 @@ class ProgBase(plumpy.Process):
                     self._t('out', fx[1], fx[2])
                 except ValueError as exc:  # a rejected value; anything else (e.g. a failing output hook) is not the program's business
                     self._t('outerr', fx[1], type(exc).__name__)
+            elif kind == 'inp':
+                # the step looks at its (parsed) inputs
+                self._t('inp', fx[1], _jsonable(self.inputs.get(fx[1], '<default>')))
             elif kind == 'soon':
                 self.call_soon(_make_cb(self, fx[1], fx[2]))
             elif kind == 'ctl':
